@@ -2,7 +2,7 @@
    a candidate F with F (k + 1) = F k + f k sums f over range(a, b) to F b - F a (a <= b).
    The generated instance files discharge the two premises (polynomial identities over Q) with `field`,
    which turns "agrees on a box" into "agrees for ALL a <= b" for that instance. *)
-From Coq Require Import List ZArith QArith Bool Lia.
+From Coq Require Import List ZArith QArith Qround Bool Lia.
 Import ListNotations.
 Require Import Pyrefact.RangeModel Pyrefact.BoolEquivModel Pyrefact.SumPolyModel.
 Open Scope Z_scope.
@@ -66,6 +66,16 @@ Proof.
   rewrite (telescope F (fun k => aeval (upd rho x k) elt) HF a b Hab). rewrite H0, H1. ring.
 Qed.
 
+(* the repaired rule writes the closed form of an integer sum as N // d: when the exact quotient N / d is the
+   integer z (it is a sum of integers), the floor division is that integer *)
+Theorem floor_exact : forall rho N d (v : Q) (z : Z),
+  (v == aeval rho (ADiv N d))%Q -> (v == inject_Z z)%Q -> (aeval rho (AFdiv N d) == v)%Q.
+Proof.
+  intros rho N d v z H1 H2. cbn [aeval] in *.
+  assert (E : (aeval rho N / aeval rho d == inject_Z z)%Q) by (rewrite <- H1; exact H2).
+  rewrite (Qfloor_comp _ _ E), Qfloor_Z. symmetry. exact H2.
+Qed.
+
 (* an instance, proved the way the generated files do it: sum(i * i for i in range(m, n)) *)
 Example closed_form_example : forall rho : nat -> Z, rho 1%nat <= rho 2%nat ->
   exists v, comp_sum [GRange 0 (AVar 1) (AVar 2) (ANum 1)] rho (AMul (AVar 0) (AVar 0)) = Some v /\
@@ -84,3 +94,4 @@ Qed.
 
 Print Assumptions telescope.
 Print Assumptions closed_form_valid.
+Print Assumptions floor_exact.
